@@ -271,8 +271,21 @@ def correspondence(ctx, model_ok=True):
                                      "comparisons failed, then the first content that failed)" % n_d, "program": vol[i],
                              "observed": st if st else r, "signature": "volume routes: " + str(st.get("printed", st.get("status")))[:80],
                              "failing_input": True})
+    # (e) names whose real hashes collide in the low 32 / 24 / 16 / 8 bits, used back to back as methods, static methods, fields, globals,
+    # map keys of one object: each use selects its own entry
+    cps = collision_programs()
+    if not colliding_names().get(32):
+        broken.append("no pair of names colliding in the low 32 bits of the real hash was found")
+    e_lines = [vlib.case_line("e%d" % i, ["S:" + vlib.hx(p)], steps=2000000) for i, (_, p, _) in enumerate(cps)]
+    for (name, src, exp), r in zip(cps, vlib.run_real(ctx.runner, e_lines)):
+        st = (r.get("steps") or [{}])[0]
+        if st.get("status") != "ok" or st.get("printed") != exp:
+            failures.append({"what": "two different names whose hashes agree in the low bits (%s) do not select their own method / field / global / map entry" % name,
+                             "program": src, "expected": exp, "observed": st if st else r, "name": name,
+                             "signature": "colliding names: " + name.split(":")[0], "failing_input": True})
     cov = {
-        "evaluations": len(seqs) + n_b + n_c + len(vol),
+        "colliding_name_pairs": {str(k): v for k, v in colliding_names().items()},
+        "evaluations": len(seqs) + n_b + n_c + len(vol) + len(cps),
         "volume_contents": n_d * len(vol),
         "distinct_nontrivial": len(nontrivial),
         "rule": "op sequences over a random hash function H of 6 profiles (special bit patterns - zero/ones halves, single bits, 0 -, identical full hashes, equal low 12 bits, "
@@ -286,6 +299,70 @@ def correspondence(ctx, model_ok=True):
         "route_programs": n_c,
     }
     return {"failures": failures, "coverage": cov, "broken": broken}
+
+
+_COLLIDING = None
+
+
+def colliding_names():
+    """Pairs of identifier-like names whose REAL hashes (FNV-1a over the bytes and a 0xff terminator, 64-bit) agree in the low 32, 24, 16
+    and 8 bits and differ elsewhere - found by a birthday search over a fixed, seeded set of candidates, so the pairs are the same on every
+    run.  Anything that recognises a name by part of its hash (a cache tag, a truncated key) confuses the two names of a pair."""
+    global _COLLIDING
+    if _COLLIDING is not None:
+        return _COLLIDING
+    from props import c12
+    rng = vlib.SplitMix(20240911)
+    letters = "abcdefghijklmnopqrstuvwxyz_"
+    names = []
+    seen = set()
+    while len(names) < 260000:
+        n = "m" + "".join(letters[rng.below(len(letters))] for _ in range(4 + rng.below(6)))
+        if n not in seen:
+            seen.add(n)
+            names.append(n)
+    hashes = [c12.fnv(n.encode()) for n in names]
+    out = {}
+    for bits, want in ((32, 6), (24, 4), (16, 4), (8, 3)):
+        mask = (1 << bits) - 1
+        first = {}
+        pairs = []
+        for n, h in zip(names, hashes):
+            k = h & mask
+            if k in first and first[k][1] != h:
+                pairs.append((first[k][0], n))
+                if len(pairs) >= want:
+                    break
+            else:
+                first.setdefault(k, (n, h))
+        out[bits] = pairs
+    # the classic 32-bit FNV-1a pair is kept as a cross-check of the search (it collides in the low 32 bits of the real hash or not at all)
+    _COLLIDING = out
+    return out
+
+
+def collision_programs():
+    """For every pair (a, b) of colliding names: both are methods, static methods, fields, globals, map keys and module-style attributes
+    of ONE object and are used back to back in every order; each use must select its own name's entry."""
+    progs_ = []
+    for bits, pairs in sorted(colliding_names().items()):
+        for a, b in pairs:
+            src = (
+                "#[constructor(new)] class K { fn %(a)s(self) { return \"A\"; } fn %(b)s(self) { return \"B\"; } "
+                "#[static] fn s%(a)s() { return \"a\"; } #[static] fn s%(b)s() { return \"b\"; } }\n"
+                "#[derive(K), constructor(new)] class S { fn via_super(self) { return super.%(a)s() + super.%(b)s() + super.%(b)s() + super.%(a)s(); } "
+                "fn bound_super(self) { var x = super.%(a)s; var y = super.%(b)s; return y() + x() + y(); } }\n"
+                "var k = K.new(); var out = k.%(a)s() + k.%(b)s() + k.%(b)s() + k.%(a)s() + k.%(a)s() + k.%(b)s();\n"
+                "var ba = k.%(a)s; var bb = k.%(b)s; out = out + ba() + bb() + bb() + ba();\n"
+                "out = out + K.s%(a)s() + K.s%(b)s() + K.s%(b)s() + K.s%(a)s();\n"
+                "var s = S.new(); out = out + s.via_super() + s.bound_super() + s.%(b)s() + s.%(a)s() + s.%(b)s();\n"
+                "var o = K.new(); o.f%(a)s = 1; o.f%(b)s = 2; o.f%(a)s = o.f%(a)s + 10; out = out + String.from(o.f%(a)s) + String.from(o.f%(b)s) + String.from(o.f%(a)s);\n"
+                "var %(a)s = \"ga\"; var %(b)s = \"gb\"; out = out + %(a)s + %(b)s + %(b)s + %(a)s; %(b)s = \"gB\"; out = out + %(a)s + %(b)s;\n"
+                "var m = {\"%(a)s\": 1, \"%(b)s\": 2}; m.insert(\"%(a)s\", 3); out = out + String.from(m.get(\"%(a)s\")) + String.from(m.get(\"%(b)s\")) + String.from(m.len());\n"
+                "print(\"%(a)s\" == \"%(b)s\"); print(out);\n") % {"a": a, "b": b}
+            exp = ["false", "ABBAAB" + "ABBA" + "abba" + "ABBA" + "BAB" + "BAB" + "11211" + "gagbgbga" + "gagB" + "322"]
+            progs_.append(("collide%d:%s/%s" % (bits, a, b), src, exp))
+    return progs_
 
 
 def yl_str(s):
